@@ -52,6 +52,22 @@ theorem step_ok {s : State} (hI : Inv s) (op : Op)
   | listQueued c n => exact ⟨_, _, listQueuedOwners_post s c n⟩
   | other c => exact ⟨_, _, rfl⟩
 
+/-- A history in which every operation is sent by a connection that is connected when it sends. -/
+def WellFormed : State → List Op → Prop
+  | _, [] => True
+  | s, op :: ops =>
+    (∀ c, op.caller = some c → s.connected c = true) ∧
+    ∀ s' evs, step s op = .ok (s', evs) → WellFormed s' ops
+
+theorem run_ok_of_wellFormed : ∀ (ops : List Op) {s : State}, Inv s → WellFormed s ops →
+    ∃ s' evss, run s ops = .ok (s', evss)
+  | [], s, _, _ => ⟨s, [], rfl⟩
+  | op :: ops, s, hI, hw => by
+    obtain ⟨s1, ev1, h1⟩ := step_ok hI op hw.1
+    have hI1 := (step_refines hI h1).1
+    obtain ⟨s2, evss, h2⟩ := run_ok_of_wellFormed ops hI1 (hw.2 s1 ev1 h1)
+    exact ⟨s2, ev1 :: evss, by simp only [run, h1, h2]⟩
+
 theorem abs_init : abs State.init = Spec.State.init := by
   unfold abs Spec.State.init
   congr 1
